@@ -1,4 +1,6 @@
 import KalignModel.Lemmas.IO.PresentMsf
+import KalignModel.Lemmas.IO.MsfHeader
+import KalignModel.Lemmas.IO.Split
 /-!
 # C04 (reader part) — the result of reading depends only on names and residues
 
@@ -10,8 +12,14 @@ import KalignModel.Lemmas.IO.PresentMsf
   the same (names, residues).
 * `read_clu_presentation(_invariant)`: the same for Clustal text: any block widths, any number of empty lines between
   blocks, conservation lines, any blanks/digits/glyphs in the payload.
-* `read_msf_body_presentation`: the same for the block phase of `read_msf`; the header phase is taken as a hypothesis in
-  `read_msf_presentation_partial` (it is proved for the files kalign writes in `msfHeader_written`).
+* `read_msf_presentation(_invariant)`: the same for MSF text: the header is any list of lines of the grammar of
+  Lemmas/IO/MsfHeader.lean (other lines without `//` that lack `Name:` or `Len:`; name lines
+  `pre Name: blanks name [blank …]` containing `Len:`), closed by a line containing `//`; the body is `msfPres`.
+  The grammar covers the headers kalign writes (`msf_grammar_covers_written`) and GCG/PileUp-style headers (example
+  below).  Not covered: a `//` inside a name line, names > 255 bytes, names with blanks, a name line without `Len:`, an
+  earlier `Name:` on the same line.  `read_msf_presentation_partial` (header phase as a hypothesis) is kept; the full
+  theorem is derived from it.
+* `read_split_files`, `split_same_as_one_file`, `dealign_forgets_gaps`: records split over several input files.
 * `formats_agree`: FASTA and Clustal presentations of the same records give the same (names, residues);
   `letterFreq_depends_on_residues`: so do the letter histogram and the detected alphabet.
 `kalign_run` discards the gap vectors (`dealign_msa`), so (names, residues) is all that reaches the aligner.
@@ -181,6 +189,88 @@ theorem read_msf_presentation_partial (lines junk : List Bytes) (hj : ∀ l ∈ 
   rw [hhdr]
   exact read_msf_body_presentation junk hj extra hx k rs hk hn
 
+/-- the names announced by a valid header start with a non-blank byte -/
+theorem hdrNames_startsNonBlank (hdr : List HdrLine) (hv : ∀ x ∈ hdr, x.Valid) :
+    ∀ nm ∈ hdrNames hdr, StartsNonBlank nm := by
+  intro nm hm
+  simp only [hdrNames, mem_filterMap] at hm
+  obtain ⟨⟨l, o⟩, hx, ho⟩ := hm
+  simp only at ho
+  subst ho
+  have h : IsNameLine l nm := hv (l, some nm) hx
+  obtain ⟨b, t, hnm⟩ := exists_cons_of_ne_nil h.ne
+  exact ⟨b, t, hnm, h.nosp b (by rw [hnm]; simp)⟩
+
+/-- **MSF text in any presentation**: a header of the grammar (`hdr`, announcing the names of `rs` in order), a line
+containing `//`, junk (empty lines, lines starting with a blank), then `k` blocks (`msfPres`): every row is read as its
+name, the letters of its payloads and the gap vector of its payloads -/
+theorem read_msf_presentation (hdr : List HdrLine) (hv : ∀ x ∈ hdr, x.Valid) (sep : Bytes)
+    (hsep : hasSub (ascii "//") sep = true) (junk : List Bytes) (hj : ∀ l ∈ junk, CluJunk l)
+    (extra : Nat → List Bytes × Nat) (hx : ∀ b, ∀ l ∈ (extra b).1, BlankStart l) (k : Nat) (rs : List RowC)
+    (hk : ∀ r ∈ rs, r.2.length = k) (hnames : hdrNames hdr = rs.map (·.1)) :
+    readMsf (hdr.map (·.1) ++ sep :: (junk ++ msfPres extra k 0 rs)) =
+      some (rs.map fun r => ⟨r.1, letters r.2, gapVec r.2.flatten⟩) := by
+  apply read_msf_presentation_partial _ junk hj extra hx k rs hk
+  · intro r hr
+    exact hdrNames_startsNonBlank hdr hv r.1 (by rw [hnames]; exact mem_map.mpr ⟨r, hr, rfl⟩)
+  · rw [msfHeader_grammar hdr hv sep hsep, hnames]
+    simp
+
+theorem read_msf_presentation_invariant (hdr1 hdr2 : List HdrLine) (hv1 : ∀ x ∈ hdr1, x.Valid)
+    (hv2 : ∀ x ∈ hdr2, x.Valid) (sep1 sep2 : Bytes) (hs1 : hasSub (ascii "//") sep1 = true)
+    (hs2 : hasSub (ascii "//") sep2 = true) (j1 j2 : List Bytes) (hj1 : ∀ l ∈ j1, CluJunk l) (hj2 : ∀ l ∈ j2, CluJunk l)
+    (x1 x2 : Nat → List Bytes × Nat) (hx1 : ∀ b, ∀ l ∈ (x1 b).1, BlankStart l) (hx2 : ∀ b, ∀ l ∈ (x2 b).1, BlankStart l)
+    (k1 k2 : Nat) (rs1 rs2 : List RowC) (hk1 : ∀ r ∈ rs1, r.2.length = k1) (hk2 : ∀ r ∈ rs2, r.2.length = k2)
+    (hn1 : hdrNames hdr1 = rs1.map (·.1)) (hn2 : hdrNames hdr2 = rs2.map (·.1))
+    (hsame : rs1.map (fun r => (r.1, letters r.2)) = rs2.map (fun r => (r.1, letters r.2))) :
+    (readMsf (hdr1.map (·.1) ++ sep1 :: (j1 ++ msfPres x1 k1 0 rs1))).map namesRes =
+      (readMsf (hdr2.map (·.1) ++ sep2 :: (j2 ++ msfPres x2 k2 0 rs2))).map namesRes := by
+  rw [read_msf_presentation hdr1 hv1 sep1 hs1 j1 hj1 x1 hx1 k1 rs1 hk1 hn1,
+    read_msf_presentation hdr2 hv2 sep2 hs2 j2 hj2 x2 hx2 k2 rs2 hk2 hn2]
+  simp only [Option.map_some, namesRes, map_map, Function.comp_def]
+  exact congrArg some hsame
+
+/-- (a) the grammar covers the header kalign writes -/
+theorem msf_grammar_covers_written (date : Bytes) (A : Alignment) (h : HdrOK A.basename date)
+    (hn : ∀ r ∈ A.rows, NmOK (maxNameLen A) r.name ∧ ∀ b ∈ r.name, plainChar b = true) :
+    (∀ x ∈ writtenHdr date A, x.Valid) ∧ hdrNames (writtenHdr date A) = A.rows.map (·.name) ∧
+    msfHeaderLines date A = (writtenHdr date A).map (·.1) ++ [ascii "//", []] :=
+  writtenHdr_covers date A h hn
+
+/-- (b) a GCG / PileUp style header is in the grammar: free text, blank lines, the `MSF:` line, `Name:` lines with
+several blanks, `Len:`/`Check:`/`Weight:` in arbitrary values, one line with `Len:` in front of `Name:` -/
+example :
+    let hdr : List HdrLine := [
+      (ascii "PileUp of: @list.fil", none), ([], none),
+      (ascii " Symbol comparison table: GenRunData:blosum62.cmp  CompCheck: 6430", none), ([], none),
+      (ascii " pileup.msf  MSF: 12  Type: P  July 3, 1997 09:21  Check: 7 ..", none), ([], none),
+      (ascii " Name: sp|P1_X       Len:    12  Check: 2413  Weight:  1.00", some (ascii "sp|P1_X")),
+      ([], none),
+      (ascii "  Name:   b.2   oo  Len: 3 Check: 0 Weight: 0.5", some (ascii "b.2")),
+      (ascii "Len: 12 Weight: 1.00 Name: c", some (ascii "c")),
+      ([], none)]
+    (∀ x ∈ hdr, x.Valid) ∧ hdrNames hdr = [ascii "sp|P1_X", ascii "b.2", ascii "c"] := by
+  intro hdr
+  refine ⟨?_, by decide⟩
+  intro x hx
+  simp only [hdr, mem_cons] at hx
+  rcases hx with rfl | rfl | rfl | rfl | rfl | rfl | rfl | rfl | rfl | rfl | rfl | hx
+  · show IsOtherLine _; decide
+  · show IsOtherLine _; decide
+  · show IsOtherLine _; decide
+  · show IsOtherLine _; decide
+  · show IsOtherLine _; decide
+  · show IsOtherLine _; decide
+  · exact ⟨⟨[32], [32], ascii "       Len:    12  Check: 2413  Weight:  1.00", by decide, by decide, by decide,
+      Or.inr ⟨32, _, rfl, by decide⟩⟩, by decide, by decide, by decide, by decide, by decide⟩
+  · show IsOtherLine _; decide
+  · exact ⟨⟨[32, 32], [32, 32, 32], ascii "   oo  Len: 3 Check: 0 Weight: 0.5", by decide, by decide, by decide,
+      Or.inr ⟨32, _, rfl, by decide⟩⟩, by decide, by decide, by decide, by decide, by decide⟩
+  · exact ⟨⟨ascii "Len: 12 Weight: 1.00 ", [32], [], by decide, by decide, by decide, Or.inl rfl⟩,
+      by decide, by decide, by decide, by decide, by decide⟩
+  · show IsOtherLine _; decide
+  · simp at hx
+
 /-! ## what else depends on the residues only -/
 
 theorem letterFreq_depends_on_residues (S1 S2 : List SeqRec) (h : S1.map (·.res) = S2.map (·.res)) :
@@ -214,5 +304,195 @@ example :
     let extra : Nat → List Bytes × Nat := fun b => if b = 0 then ([ascii "    **"], 2) else ([], 0)
     (∀ r ∈ rs, r.2.length = 1 + 1) ∧ (∀ r ∈ rs, r.1 ≠ [] ∧ r.1.length ≤ 200 ∧ ∀ b ∈ r.1, isSpace b = false) ∧
     (∀ l ∈ (extra 0).1, l.head?.map isSpace = some true) := by decide
+
+/-! ## records split over several input files -/
+
+theorem gapVec_length (l : Bytes) : (gapVec l).length = (l.filter isAlpha).length + 1 := by
+  induction l with
+  | nil => rfl
+  | cons b t ih =>
+    simp only [gapVec]
+    by_cases h1 : isAlpha b = true
+    · simp [h1, ih]
+    · by_cases h2 : isPunct b = true
+      · have hb : ∀ g : List Nat, g ≠ [] → (bump g).length = g.length := by
+          intro g hg; cases g with
+          | nil => exact absurd rfl hg
+          | cons => rfl
+        simp [h1, h2, hb _ (gapVec_ne_nil t), ih]
+      · simp [h1, h2, ih]
+
+/-- the records a presentation stands for: name, letters, gap vector of the pieces -/
+def recOf (r : Bytes × List Bytes) : SeqRec := ⟨r.1, letters r.2, gapVec r.2.flatten⟩
+
+theorem recOf_gapsWF (rs : List (Bytes × List Bytes)) : GapsWF (rs.map recOf) := by
+  intro s hs
+  simp only [mem_map] at hs
+  obtain ⟨r, _, rfl⟩ := hs
+  exact gapVec_length r.2.flatten
+
+/-- `file` is a FASTA, Clustal or MSF presentation (in the sense of the three presentation theorems) of the records `S`,
+given as complete lines without control bytes whose first line is not one byte long and whose format is sniffed
+correctly (`detectFormat` is a decidable side condition of the concrete text) -/
+inductive Presents : Bytes → List SeqRec → Prop
+  | fasta (pre : List Bytes) (recs : List (Bytes × List Bytes))
+      (hpre : ∀ l ∈ pre, Junk l) (h62 : ∀ r ∈ recs, ∀ l ∈ r.2, l.head? ≠ some 62) (hne : recs ≠ [])
+      (hcn : ∀ l ∈ pre ++ faPres recs, ∀ b ∈ l, isCntrl b = false)
+      (hfirst : ∀ l ls, pre ++ faPres recs = l :: ls → l.length ≠ 1)
+      (hdet : detectFormat (pre ++ faPres recs) = 1) :
+      Presents (emit (pre ++ faPres recs)) (recs.map recOf)
+  | clu (title : Bytes) (junk : List Bytes) (extra : Nat → List Bytes × Nat) (k : Nat) (rs : List RowC)
+      (hj : ∀ l ∈ junk, CluJunk l) (hx : ∀ b, ∀ l ∈ (extra b).1, BlankStart l)
+      (hk : ∀ r ∈ rs, r.2.length = k + 1) (hn : ∀ r ∈ rs, NmOK' r.1) (hne : rs ≠ [])
+      (hcn : ∀ l ∈ title :: (junk ++ cluPres extra (k + 1) 0 rs), ∀ b ∈ l, isCntrl b = false)
+      (hfirst : title.length ≠ 1)
+      (hdet : detectFormat (title :: (junk ++ cluPres extra (k + 1) 0 rs)) = 3) :
+      Presents (emit (title :: (junk ++ cluPres extra (k + 1) 0 rs))) (rs.map recOf)
+  | msf (hdr : List HdrLine) (sep : Bytes) (junk : List Bytes) (extra : Nat → List Bytes × Nat) (k : Nat)
+      (rs : List RowC) (hv : ∀ x ∈ hdr, x.Valid) (hsep : hasSub (ascii "//") sep = true)
+      (hj : ∀ l ∈ junk, CluJunk l) (hx : ∀ b, ∀ l ∈ (extra b).1, BlankStart l)
+      (hk : ∀ r ∈ rs, r.2.length = k) (hnames : hdrNames hdr = rs.map (·.1)) (hne : rs ≠ [])
+      (hcn : ∀ l ∈ hdr.map (·.1) ++ sep :: (junk ++ msfPres extra k 0 rs), ∀ b ∈ l, isCntrl b = false)
+      (hfirst : ∀ l ls, hdr.map (·.1) ++ sep :: (junk ++ msfPres extra k 0 rs) = l :: ls → l.length ≠ 1)
+      (hdet : detectFormat (hdr.map (·.1) ++ sep :: (junk ++ msfPres extra k 0 rs)) = 2) :
+      Presents (emit (hdr.map (·.1) ++ sep :: (junk ++ msfPres extra k 0 rs))) (rs.map recOf)
+
+theorem fileReads_of_lines (lines : List Bytes) (S : List SeqRec) (t : Int)
+    (hcn : ∀ l ∈ lines, ∀ b ∈ l, isCntrl b = false) (hne : lines ≠ [])
+    (hfirst : ∀ l ls, lines = l :: ls → l.length ≠ 1) (hdet : detectFormat lines = t) (ht : t ≠ -1)
+    (hread : readAs t lines = some S) (hS : S ≠ []) : FileReads (emit lines) S := by
+  obtain ⟨l, ls, rfl⟩ := exists_cons_of_ne_nil hne
+  exact ⟨⟨l, ls, t, splitLines_emit _ hcn, hfirst l ls rfl, hdet, ht, hread⟩, hS⟩
+
+theorem Presents.reads {file : Bytes} {S : List SeqRec} (h : Presents file S) : FileReads file S := by
+  cases h with
+  | fasta pre recs hpre h62 hne hcn hfirst hdet =>
+    refine fileReads_of_lines _ _ 1 hcn ?_ hfirst hdet (by decide) ?_ (by simpa using hne)
+    · obtain ⟨r, rs, rfl⟩ := exists_cons_of_ne_nil hne
+      simp [faPres]
+    · have := read_fasta_presentation pre recs hpre h62
+      simp only [readAs]
+      rw [this]; rfl
+  | clu title junk extra k rs hj hx hk hn hne hcn hfirst hdet =>
+    refine fileReads_of_lines _ _ 3 hcn (by simp) ?_ hdet (by decide) ?_ (by simpa using hne)
+    · intro l ls h; simp only [cons.injEq] at h; rw [← h.1]; exact hfirst
+    · have := read_clu_presentation title junk extra k rs hj hx hk hn
+      simp only [readAs]
+      rw [this]; rfl
+  | msf hdr sep junk extra k rs hv hsep hj hx hk hnames hne hcn hfirst hdet =>
+    refine fileReads_of_lines _ _ 2 hcn (by simp) hfirst hdet (by decide) ?_ (by simpa using hne)
+    have := read_msf_presentation hdr hv sep hsep junk hj extra hx k rs hk hnames
+    simp only [readAs]
+    rw [this]; rfl
+
+theorem Presents.gapsWF {file : Bytes} {S : List SeqRec} (h : Presents file S) : GapsWF S := by
+  cases h <;> exact recOf_gapsWF _
+
+/-- every file presents its part of the records -/
+inductive AllPresent : List Bytes → List (List SeqRec) → Prop
+  | nil : AllPresent [] []
+  | cons {f S fs Ss} : Presents f S → AllPresent fs Ss → AllPresent (f :: fs) (S :: Ss)
+
+theorem AllPresent.reads {files : List Bytes} {Ss : List (List SeqRec)} (h : AllPresent files Ss) :
+    AllReads files Ss := by
+  induction h with
+  | nil => exact .nil
+  | cons h _ ih => exact .cons h.reads ih
+
+theorem AllPresent.gapsWF {files : List Bytes} {Ss : List (List SeqRec)} (h : AllPresent files Ss) :
+    GapsWF Ss.flatten := by
+  induction h with
+  | nil => intro s hs; simp at hs
+  | cons h _ ih =>
+    intro s hs
+    simp only [flatten_cons, mem_append] at hs
+    rcases hs with hs | hs
+    · exact h.gapsWF s hs
+    · exact ih s hs
+
+/-- **records split over k ≥ 1 input files** (FASTA, Clustal or MSF presentations, in any mixture).  `ClassOK none Ss` is
+the recorded finding C04-split-class kept as an explicit hypothesis: each further file's own detected class equals
+the class of the files accumulated before it (otherwise `merge_msa` rejects the input).  Then `readInputs` succeeds
+with all sequences in file order; status and class are those computed from all sequences together; `L` stays 255. -/
+theorem read_split_files (files : List Bytes) (Ss : List (List SeqRec)) (hne : files ≠ [])
+    (hp : AllPresent files Ss) (hc : ClassOK none Ss) :
+    ∃ m b, readInputs none files = .ok m ∧ m = finishMsa Ss.flatten b 255 ∧
+      m.seqs = Ss.flatten ∧ m.aligned = detectAligned Ss.flatten ∧ m.L = 255 ∧
+      m.biotype = (detectAlphabet (letterFreq Ss.flatten) b 255).1 := by
+  have h := readInputs_split files Ss none hp.reads hc
+  cases hp with
+  | nil => exact absurd rfl hne
+  | @cons f S fs Ss' hf hrest =>
+    obtain ⟨b, hb⟩ := accum_shape Ss' S 2
+    simp only [accum, mergeStep] at h
+    rw [hb] at h
+    exact ⟨_, b, h, by simp, by rw [finishMsa_seqs]; simp, by rw [finishMsa_aligned]; simp,
+      finishMsa_L _ _, by rw [finishMsa_biotype]; simp⟩
+
+/-- `dealign_msa` (applied by `kalign_run` unless the status is UNALIGNED, in which case there are no gaps anyway)
+forgets the gap vectors: two results with the same names and residues enter the aligner with the same sequences -/
+theorem dealign_forgets_gaps (S1 S2 : List SeqRec) (w1 : GapsWF S1) (w2 : GapsWF S2)
+    (h : namesRes S1 = namesRes S2) (b1 L1 b2 L2 : Nat) :
+    (runDealign (finishMsa S1 b1 L1)).seqs = (runDealign (finishMsa S2 b2 L2)).seqs ∧
+    (runDealign (finishMsa S1 b1 L1)).aligned = 1 ∧ (runDealign (finishMsa S2 b2 L2)).aligned = 1 ∧
+    ∀ s ∈ (runDealign (finishMsa S1 b1 L1)).seqs, ∀ g ∈ s.gaps, g = 0 := by
+  rw [runDealign_finish S1 w1, runDealign_finish S2 w2]
+  refine ⟨dealignSeq_congr S1 S2 h, rfl, rfl, ?_⟩
+  intro s hs g hg
+  simp only [mem_map] at hs
+  obtain ⟨s0, _, rfl⟩ := hs
+  exact (mem_replicate.mp hg).2
+
+/-- **the split input is the one-file input as far as `kalign_run` can tell**: if the one-file presentation `one` of
+the same names and residues has a definite class (DNA or protein), then both readings succeed with the same names and
+residues in the same order, the same letter histogram, class and `L`, and — after the `dealign_msa` step of
+`kalign_run` — identical msa contents.  (The gap vectors and hence the status before that step may differ.) -/
+theorem split_same_as_one_file (files : List Bytes) (Ss : List (List SeqRec)) (hne : files ≠ [])
+    (hp : AllPresent files Ss) (hc : ClassOK none Ss) (one : Bytes) (S1 : List SeqRec) (h1 : Presents one S1)
+    (hsame : namesRes S1 = namesRes Ss.flatten) (hdef : (finishMsa S1 2 255).biotype ≠ 2) :
+    ∃ m m1, readInputs none files = .ok m ∧ readInputs none [one] = .ok m1 ∧
+      namesRes m.seqs = namesRes m1.seqs ∧ letterFreq m.seqs = letterFreq m1.seqs ∧
+      m.biotype = m1.biotype ∧ m.L = m1.L ∧ runDealign m = runDealign m1 := by
+  obtain ⟨m, b, hm, hmeq, hseqs, _, hL, hbio⟩ := read_split_files files Ss hne hp hc
+  have hone : readInputs none [one] = .ok (finishMsa S1 2 255) := by
+    have := readInputs_split [one] [S1] none (.cons h1.reads .nil) ⟨trivial, trivial⟩
+    simpa [accum, mergeStep] using this
+  have hres : S1.map (·.res) = Ss.flatten.map (·.res) := by
+    have := congrArg (fun l => l.map Prod.snd) hsame
+    simpa [namesRes, Function.comp_def] using this
+  have hlf : letterFreq Ss.flatten = letterFreq S1 := (letterFreq_depends_on_residues S1 _ hres).symm
+  have hd : detectAlphabet (letterFreq Ss.flatten) b 255 = detectAlphabet (letterFreq S1) 2 255 := by
+    rw [hlf]
+    exact detectAlphabet_definite _ 255 (by rw [← finishMsa_biotype]; exact hdef) b
+  have hb : m.biotype = (finishMsa S1 2 255).biotype := by
+    rw [hbio, hd, finishMsa_biotype]
+  refine ⟨m, finishMsa S1 2 255, hm, hone, ?_, ?_, hb, ?_, ?_⟩
+  · rw [hseqs, finishMsa_seqs]; exact hsame.symm
+  · rw [hseqs, finishMsa_seqs]; exact hlf
+  · rw [hL, finishMsa_L]
+  · rw [hmeq, runDealign_finish _ hp.gapsWF, runDealign_finish _ h1.gapsWF]
+    rw [dealignSeq_congr _ _ hsame.symm]
+    rw [← hmeq, hb, hL, finishMsa_L]
+
+/-- non-vacuity of `read_split_files` / `split_same_as_one_file`: two FASTA files (different line widths) whose records
+have the same residues, so that the class hypothesis holds without evaluating the floating-point scores -/
+example :
+    let f1 := emit ([] ++ faPres [(ascii "a", [ascii "AC-GT"])])
+    let f2 := emit ([] ++ faPres [(ascii "b", [ascii "AC", ascii "G.T"])])
+    AllPresent [f1, f2] [[recOf (ascii "a", [ascii "AC-GT"])], [recOf (ascii "b", [ascii "AC", ascii "G.T"])]] ∧
+    ClassOK none [[recOf (ascii "a", [ascii "AC-GT"])], [recOf (ascii "b", [ascii "AC", ascii "G.T"])]] := by
+  intro f1 f2
+  constructor
+  · refine .cons ?_ (.cons ?_ .nil)
+    · exact Presents.fasta [] [(ascii "a", [ascii "AC-GT"])] (by simp) (by decide) (by decide) (by decide)
+        (by intro l ls h; simp only [faPres, flatMap_cons, flatMap_nil, nil_append, append_nil, cons.injEq] at h
+            rw [← h.1]; decide) (by decide)
+    · exact Presents.fasta [] [(ascii "b", [ascii "AC", ascii "G.T"])] (by simp) (by decide) (by decide) (by decide)
+        (by intro l ls h; simp only [faPres, flatMap_cons, flatMap_nil, nil_append, append_nil, cons.injEq] at h
+            rw [← h.1]; decide) (by decide)
+  · refine ⟨trivial, Or.inr ?_, trivial⟩
+    simp only [mergeStep]
+    rw [finishMsa_biotype, finishMsa_biotype]
+    rw [letterFreq_depends_on_residues _ [recOf (ascii "b", [ascii "AC", ascii "G.T"])] (by decide)]
 
 end Kalign.IO
